@@ -232,3 +232,108 @@ func VH_c10_teardown() {
 	verifrt.Assert("other-peer-is-still-notified", outB.notifies == nB)
 	verifrt.Observe("subs", len(sm.subscriptionEntries))
 }
+
+func init() {
+	verifrt.Register("VH_c10_reconnect", VH_c10_reconnect)
+}
+
+// C10 (history): nothing of a removed connection's pending write approvals is inherited by the next
+// connection of the same SKI. A write of peer A is approved by a proper subset of the callbacks, times out
+// (or not) and A disconnects; A reconnects, is bound again and writes with the same (or another) message
+// counter: that write is applied exactly if every callback approves *it*.
+func VH_c10_reconnect() {
+	verifrt.Scenario("reconnect-after-partially-approved-write")
+	w := vhNewWorld(vhWorldOpts{})
+	fn := model.FunctionTypeLoadControlLimitListData
+	f1 := w.F1.(*FeatureLocal)
+	bm := w.L.BindingManager().(*BindingManager)
+	w.F1.SetData(fn, vhTwoLimits())
+	f1.SetWriteApprovalTimeout(time.Second)
+	var got [2][]*api.Message
+	for i := 0; i < 2; i++ {
+		i := i
+		_ = f1.AddWriteApprovalCallback(func(m *api.Message) { got[i] = append(got[i], m) })
+	}
+	bind := func(r api.DeviceRemoteInterface, id uint64) {
+		bm.bindingEntries = append(bm.bindingEntries, &api.BindingEntry{Id: id, ServerFeature: w.F1, ClientFeature: r.FeatureByAddress(vhAddr("A", []uint{1}, 1))})
+		vhSetBindingNum(bm, id)
+	}
+	write := func(r api.DeviceRemoteInterface, ctr uint64, limit uint) {
+		item := model.LoadControlLimitDataType{LimitId: util.Ptr(model.LoadControlLimitIdType(limit)), IsLimitActive: util.Ptr(true)}
+		cmd := model.CmdType{Function: util.Ptr(fn), Filter: []model.FilterType{*model.NewFilterTypePartial()},
+			LoadControlLimitListData: &model.LoadControlLimitListDataType{LoadControlLimitData: []model.LoadControlLimitDataType{item}}}
+		h := w.hdr(vhAddr("A", []uint{1}, 1), w.F1.Address(), model.CmdClassifierTypeWrite, true)
+		h.MsgCounter = util.Ptr(model.MsgCounterType(ctr))
+		vhDeliver(r, model.DatagramType{Header: h, Payload: model.PayloadType{Cmd: []model.CmdType{cmd}}})
+		verifrt.RunReadyFIFO()
+	}
+	active := func(limit uint) bool {
+		data, _ := w.F1.DataCopy(fn).(*model.LoadControlLimitListDataType)
+		if data == nil {
+			return false
+		}
+		for _, it := range data.LoadControlLimitData {
+			if it.LimitId != nil && uint(*it.LimitId) == limit && it.IsLimitActive != nil && *it.IsLimitActive {
+				return true
+			}
+		}
+		return false
+	}
+	approve := func(i int) {
+		if n := len(got[i]); n > 0 {
+			f1.ApproveOrDenyWrite(got[i][n-1], model.ErrorType{ErrorNumber: 0})
+		}
+	}
+
+	// ---- first connection: a write approved by none or one of the two callbacks
+	bind(w.rA, 1)
+	write(w.rA, 500, 10)
+	verifrt.Assume(len(got[0]) == 1 && len(got[1]) == 1)
+	switch verifrt.Choice("first.approvals", 3) {
+	case 1:
+		approve(0)
+	case 2:
+		approve(1)
+	}
+	if verifrt.Choice("first.timed-out-before-disconnect", 2) == 1 {
+		verifrt.FireTimers()
+	}
+	w.L.RemoveRemoteDeviceConnection("skiA")
+	verifrt.FireTimers()
+	verifrt.RunReadyFIFO()
+	verifrt.Reach("disconnected")
+	verifrt.Assert("write-of-the-removed-connection-is-never-applied", !active(10))
+
+	// ---- the same SKI connects again
+	w2 := &vhWriter{name: "A2"}
+	w.L.SetupRemoteDevice("skiA", w2)
+	r2 := w.L.RemoteDeviceForSki("skiA")
+	verifrt.Assert("reconnected-device-resolves", r2 != nil)
+	if r2 == nil {
+		return
+	}
+	w.announce(r2, "A", false)
+	bind(r2, 2)
+	ctr := uint64(500 + verifrt.Choice("second.counter-offset", 2))
+	m0 := len(w2.msgs)
+	write(r2, ctr, 11)
+	verifrt.Assume(len(got[0]) == 2 && len(got[1]) == 2)
+	ap := verifrt.Choice("second.approvals", 4) // 0 none, 1 first callback, 2 second callback, 3 both
+	if ap&1 != 0 {
+		approve(0)
+	}
+	if ap&2 != 0 {
+		approve(1)
+	}
+	verifrt.FireTimers()
+	verifrt.RunReadyFIFO()
+	verifrt.Reach("second-write-decided")
+	out := vhCount(w2, m0)
+	if ap == 3 {
+		verifrt.Assert("unanimously-approved-write-after-reconnect-is-applied", active(11) && out.okResults == 1 && out.errResults == 0)
+	} else {
+		verifrt.Assert("approvals-of-the-removed-connection-are-not-inherited", !active(11))
+		verifrt.Assert("write-lacking-an-approval-ends-in-one-error-result", out.okResults == 0 && out.errResults == 1)
+	}
+	verifrt.Observe("applied", active(11))
+}
